@@ -7,7 +7,7 @@
    (go_utf16le: RFC 3629 decoding followed by RFC 2781 encoding on every valid UTF-8 string —
    Proofs/C02Text.v).  Upper-casing is a parameter: every theorem holds for any upper-casing function. *)
 From Coq Require Import List Arith NArith Bool.
-From Mant Require Import Prim.Bytes Prim.Dec Prim.C02Text Algo.MD4 Algo.MD5 Algo.HMAC Algo.DES.
+From Mant Require Import Prim.R Prim.Bytes Prim.Dec Prim.C02Text Algo.MD4 Algo.MD5 Algo.HMAC Algo.DES.
 Import ListNotations.
 Open Scope N_scope.
 
@@ -18,6 +18,19 @@ Definition desl (k d : list N) : list N :=
   des7_encrypt (firstn 7 k) d
   ++ des7_encrypt (firstn 7 (skipn 7 k)) d
   ++ des7_encrypt (skipn 14 k ++ [0; 0; 0; 0; 0]) d.
+
+(* The contract of the NTLMv1 methods on fields of any length: a response is produced exactly for a 16-byte
+   hash (given, or NTOWFv1 of the password when none is given) and an 8-byte challenge; anything else is an
+   error, never a panic. *)
+Definition ntowfv1_of (password : list N) : list N := md4 (go_utf16le password).
+Definition hash_outcome (nthash password sc : list N) : R (list N) :=
+  if (lenN nthash =? 0) && (lenN password =? 0) then Err else
+  let h := if lenN nthash =? 0 then ntowfv1_of password else nthash in
+  if negb (lenN h =? 16) then Err else
+  if negb (lenN sc =? 8) then Err else Ok (desl h sc).
+Definition nt_response_outcome (nthash sc : list N) : R (list N) :=
+  if negb (lenN nthash =? 16) then Err else
+  if negb (lenN sc =? 8) then Err else Ok (desl nthash sc).
 
 (* a byte has odd parity: an odd number of its 8 bits are set *)
 Definition bit_count8 (b : N) : nat :=
